@@ -18,12 +18,12 @@ import (
 
 // ProofTruth is the harness' ground truth about a binding proof.
 type ProofTruth struct {
-	AccountId  string
-	Did        string
+	AccountId          string
+	Did                string
 	SignedByAccountKey bool
-	Timestamp  int64
-	BlockTime  int64
-	NewSid     bool
+	Timestamp          int64
+	BlockTime          int64
+	NewSid             bool
 }
 
 func sidKey(owner *Actor, version int) *secp256k1.PrivKey {
